@@ -10,7 +10,7 @@
    acceptance in strict mode is "well-typed protobuf encoding for the schema" in the sense of C03
    (any order and multiplicity of records, non-minimal varints, split packed runs, partial /
    duplicated / reordered map-entry subfields, unknown records of every wire type). *)
-From CP Require Import Extra RefDecode RefDecodeEq.
+From CP Require Import Extra RefDecode RefDecodeEq UnmarshalProg UnmarshalProgProofs.
 Local Open Scope N_scope.
 
 (* For every schema, message type, existing target message (Unmarshal: VNil; Merge: any message),
@@ -78,3 +78,45 @@ Example decode_example :
                VMap [(VInt 9, VBytes [x78])]; VSome (VBool false); VNil ] [xdb; x3e; x08; x01; xdc; x3e]) /\
   pulsar_unmarshal ex_schema false 0 VNil ex_stream = ref_unmarshal ex_schema false true 0 VNil ex_stream.
 Proof. vm_compute. split; reflexivity. Qed.
+
+(* The translator tie (DESIGN 12.7), decode side. Model/UnmarshalProg.v is the literal image of the statements the
+   unmarshal template prints into every generated unmarshal closure; canon_unmarshal is the program it prints for a
+   message type, computed from the schema alone (on every run the runner translates every generated closure and the driver
+   compares it with canon_unmarshal syntactically). For every well-formed schema, DiscardUnknown setting, depth budget,
+   message type, target (fresh, or any well-typed message to merge into) and input: the canonical program, run by the
+   UnmarshalProg interpreter (Go int arithmetic wrapping to 64 bits, index / slice bounds panics, scoped locals), with the
+   children decoded by the model's decoder one level down, computes exactly Decode.unmarshal_at at this level — value,
+   error, panic and out-of-fuel alike. So the model decoder that the theorems above (and C06, C14) speak about is the
+   meaning of the generated statements themselves. (Input length + 8 < 2^63: decodeFixed64's guard `(iNdEx + 8) > l`
+   must not wrap; found by the proof.) *)
+Theorem unmarshal_prog_correct : UnmarshalProg.unmarshal_prog_correct_stmt.
+Proof. exact UnmarshalProgProofs.unmarshal_prog_correct. Qed.
+
+(* non-vacuity, on ex_schema (packed list, nested message, map, oneof with a bool and a message member): a packed run, a
+   nested message, a map entry, an unknown varint field, the same map key again (replaces the value), another entry, a
+   oneof member replaced by the other one, an unknown group; the canonical program run at the top level returns the
+   value below (unknown fields kept in order, or dropped under DiscardUnknown), which is pulsar_unmarshal's; two
+   malformed inputs (a packed run longer than the input; the stream cut inside the second map entry) give an error *)
+Definition up_stream : list byte :=
+  [ x0a; x02; x01; x02;                      (* packed [1,2] *)
+    x12; x03; x0a; x01; x61;                 (* field 2: {s:"a"} *)
+    x1a; x05; x08; x07; x12; x01; x78;       (* entry 7 -> "x" *)
+    x38; x05;                                (* unknown field 7, varint 5 *)
+    x1a; x05; x08; x07; x12; x01; x79;       (* entry 7 -> "y": replaces "x" *)
+    x1a; x05; x08; x08; x12; x01; x7a;       (* entry 8 -> "z" *)
+    x20; x01;                                (* oneof: bool true *)
+    x2a; x02; x10; x01;                      (* oneof: message {n:-1} replaces it *)
+    xdb; x3e; x08; x01; xdc; x3e ].          (* unknown group 1003 { 1: 1 } *)
+Definition up_slots : list val :=
+  [ VList [VInt 1; VInt 2]; VMsg [VBytes [x61]; VInt 0] []; VMap [(VInt 7, VBytes [x79]); (VInt 8, VBytes [x7a])];
+    VNil; VSome (VMsg [VBytes []; VInt (-1)] []) ].
+Example unmarshal_prog_example :
+  wf ex_schema = true /\
+  UnmarshalProg.run_unmarshal_top ex_schema false 0 (UnmarshalProg.canon_unmarshal ex_schema 0) VNil up_stream
+    = Some (Ok (VMsg up_slots [x38; x05; xdb; x3e; x08; x01; xdc; x3e])) /\
+  UnmarshalProg.run_unmarshal_top ex_schema true 0 (UnmarshalProg.canon_unmarshal ex_schema 0) VNil up_stream
+    = Some (Ok (VMsg up_slots [])) /\
+  pulsar_unmarshal ex_schema false 0 VNil up_stream = Ok (VMsg up_slots [x38; x05; xdb; x3e; x08; x01; xdc; x3e]) /\
+  UnmarshalProg.run_unmarshal_top ex_schema false 0 (UnmarshalProg.canon_unmarshal ex_schema 0) VNil [x0a; x05; x01] = Some Err /\
+  UnmarshalProg.run_unmarshal_top ex_schema false 0 (UnmarshalProg.canon_unmarshal ex_schema 0) VNil (firstn 20 up_stream) = Some Err.
+Proof. vm_compute. repeat split; reflexivity. Qed.
